@@ -301,127 +301,136 @@ func main() {
 		name  string
 		calls []string
 	}
-	var sks []sk
-	for fi, af := range parsed {
-		switch names[fi] {
-		case "internal_api.go", "enforcer.go", "enforcer_distributed.go":
-		default:
-			continue
-		}
-		for _, d := range af.Decls {
-			fd, ok := d.(*ast.FuncDecl)
-			if !ok || fd.Body == nil || fd.Recv == nil {
+	collect := func(files map[string]bool) []sk {
+		var sks []sk
+		for fi, af := range parsed {
+			if !files[names[fi]] {
 				continue
 			}
-			rt := recvOf(fd)
-			if rt != "Enforcer" && rt != "DistributedEnforcer" {
-				continue
-			}
-			recv := ""
-			if len(fd.Recv.List[0].Names) > 0 {
-				recv = fd.Recv.List[0].Names[0].Name
-			}
-			var calls []string
-			var mentions func(e ast.Expr, field string) bool
-			mentions = func(e ast.Expr, field string) bool {
-				found := false
-				ast.Inspect(e, func(x ast.Node) bool {
-					if sel, ok := x.(*ast.SelectorExpr); ok {
-						if id, ok := sel.X.(*ast.Ident); ok && id.Name == recv && sel.Sel.Name == field {
-							found = true
+			for _, d := range af.Decls {
+				fd, ok := d.(*ast.FuncDecl)
+				if !ok || fd.Body == nil || fd.Recv == nil {
+					continue
+				}
+				rt := recvOf(fd)
+				if rt != "Enforcer" && rt != "DistributedEnforcer" {
+					continue
+				}
+				recv := ""
+				if len(fd.Recv.List[0].Names) > 0 {
+					recv = fd.Recv.List[0].Names[0].Name
+				}
+				var calls []string
+				var mentions func(e ast.Expr, field string) bool
+				mentions = func(e ast.Expr, field string) bool {
+					found := false
+					ast.Inspect(e, func(x ast.Node) bool {
+						if sel, ok := x.(*ast.SelectorExpr); ok {
+							if id, ok := sel.X.(*ast.Ident); ok && id.Name == recv && sel.Sel.Name == field {
+								found = true
+							}
 						}
-					}
-					return !found
-				})
-				return found
-			}
-			// local variables bound to the watcher / adapter by a type assertion (`if w, ok := e.watcher.(X); ok`)
-			alias := map[string]string{}
-			ast.Inspect(fd.Body, func(x ast.Node) bool {
-				if as, ok := x.(*ast.AssignStmt); ok && len(as.Lhs) >= 1 && len(as.Rhs) == 1 {
-					if _, isAssert := as.Rhs[0].(*ast.TypeAssertExpr); !isAssert {
-						return true
-					}
-					for _, f := range []string{"watcher", "adapter", "dispatcher"} {
-						if mentions(as.Rhs[0], f) {
-							if id, ok := as.Lhs[0].(*ast.Ident); ok {
-								alias[id.Name] = f
+						return !found
+					})
+					return found
+				}
+				// local variables bound to the watcher / adapter by a type assertion (`if w, ok := e.watcher.(X); ok`)
+				alias := map[string]string{}
+				ast.Inspect(fd.Body, func(x ast.Node) bool {
+					if as, ok := x.(*ast.AssignStmt); ok && len(as.Lhs) >= 1 && len(as.Rhs) == 1 {
+						if _, isAssert := as.Rhs[0].(*ast.TypeAssertExpr); !isAssert {
+							return true
+						}
+						for _, f := range []string{"watcher", "adapter", "dispatcher"} {
+							if mentions(as.Rhs[0], f) {
+								if id, ok := as.Lhs[0].(*ast.Ident); ok {
+									alias[id.Name] = f
+								}
 							}
 						}
 					}
-				}
-				return true
-			})
-			var visit func(n ast.Node)
-			visit = func(n ast.Node) {
-				ast.Inspect(n, func(x ast.Node) bool {
-					call, ok := x.(*ast.CallExpr)
-					if !ok {
-						return true
-					}
-					for _, a := range call.Args {
-						visit(a)
-					}
-					if sel, ok := call.Fun.(*ast.SelectorExpr); ok {
-						visit(sel.X)
-						m := sel.Sel.Name
-						switch {
-						case mentions(sel.X, "adapter"):
-							calls = append(calls, "adapter:"+m)
-						case mentions(sel.X, "watcher"):
-							calls = append(calls, "watcher:"+m)
-						case mentions(sel.X, "dispatcher"):
-							calls = append(calls, "dispatcher:"+m)
-						case mentions(sel.X, "model"):
-							calls = append(calls, "model:"+m)
-						default:
-							if id, ok := sel.X.(*ast.Ident); ok {
-								if f, ok := alias[id.Name]; ok {
-									calls = append(calls, f+":"+m)
-								} else if id.Name == recv {
-									switch {
-									case m == "shouldPersist":
-										calls = append(calls, "guard:persist")
-									case m == "shouldNotify":
-										calls = append(calls, "guard:notify")
-									case strings.HasPrefix(m, "BuildIncremental") || m == "BuildRoleLinks" || m == "rebuildRoleLinks" || m == "rebuildConditionalRoleLinks":
-										calls = append(calls, "links:"+m)
-									default:
+					return true
+				})
+				var visit func(n ast.Node)
+				visit = func(n ast.Node) {
+					ast.Inspect(n, func(x ast.Node) bool {
+						call, ok := x.(*ast.CallExpr)
+						if !ok {
+							return true
+						}
+						for _, a := range call.Args {
+							visit(a)
+						}
+						if sel, ok := call.Fun.(*ast.SelectorExpr); ok {
+							visit(sel.X)
+							m := sel.Sel.Name
+							switch {
+							case mentions(sel.X, "adapter"):
+								calls = append(calls, "adapter:"+m)
+							case mentions(sel.X, "watcher"):
+								calls = append(calls, "watcher:"+m)
+							case mentions(sel.X, "dispatcher"):
+								calls = append(calls, "dispatcher:"+m)
+							case mentions(sel.X, "model"):
+								calls = append(calls, "model:"+m)
+							default:
+								if id, ok := sel.X.(*ast.Ident); ok {
+									if f, ok := alias[id.Name]; ok {
+										calls = append(calls, f+":"+m)
+									} else if id.Name == recv {
+										switch {
+										case m == "shouldPersist":
+											calls = append(calls, "guard:persist")
+										case m == "shouldNotify":
+											calls = append(calls, "guard:notify")
+										case strings.HasPrefix(m, "BuildIncremental") || m == "BuildRoleLinks" || m == "rebuildRoleLinks" || m == "rebuildConditionalRoleLinks":
+											calls = append(calls, "links:"+m)
+										default:
+											calls = append(calls, "self:"+m)
+										}
+									}
+								} else if inner, ok := sel.X.(*ast.SelectorExpr); ok {
+									// d.Enforcer.X / e.Enforcer.X
+									if id, ok := inner.X.(*ast.Ident); ok && id.Name == recv {
 										calls = append(calls, "self:"+m)
 									}
 								}
-							} else if inner, ok := sel.X.(*ast.SelectorExpr); ok {
-								// d.Enforcer.X / e.Enforcer.X
-								if id, ok := inner.X.(*ast.Ident); ok && id.Name == recv {
-									calls = append(calls, "self:"+m)
-								}
 							}
 						}
-					}
-					return false
-				})
+						return false
+					})
+				}
+				visit(fd.Body)
+				if len(calls) > 0 {
+					sks = append(sks, sk{rt + "." + fd.Name.Name, calls})
+				}
 			}
-			visit(fd.Body)
-			if len(calls) > 0 {
-				sks = append(sks, sk{rt + "." + fd.Name.Name, calls})
+		}
+		sort.Slice(sks, func(i, j int) bool { return sks[i].name < sks[j].name })
+		return sks
+	}
+	emitSks := func(sks []sk) {
+		for i, k := range sks {
+			q := make([]string, len(k.calls))
+			for j, c := range k.calls {
+				kv := strings.SplitN(c, ":", 2)
+				q[j] = fmt.Sprintf("(%q, %q)", kv[0], kv[1])
 			}
+			sep := ","
+			if i == len(sks)-1 {
+				sep = ""
+			}
+			fmt.Printf("  (%q, [%s])%s\n", k.name, strings.Join(q, ", "), sep)
 		}
+		fmt.Println("]")
+		fmt.Println()
 	}
-	sort.Slice(sks, func(i, j int) bool { return sks[i].name < sks[j].name })
-	for i, k := range sks {
-		q := make([]string, len(k.calls))
-		for j, c := range k.calls {
-			kv := strings.SplitN(c, ":", 2)
-			q[j] = fmt.Sprintf("(%q, %q)", kv[0], kv[1])
-		}
-		sep := ","
-		if i == len(sks)-1 {
-			sep = ""
-		}
-		fmt.Printf("  (%q, [%s])%s\n", k.name, strings.Join(q, ", "), sep)
-	}
-	fmt.Println("]")
-	fmt.Println()
+	emitSks(collect(map[string]bool{"internal_api.go": true, "enforcer.go": true, "enforcer_distributed.go": true}))
+	// ---- the convenience layer (rbac_api.go, rbac_api_with_domains.go): the same skeletons; (self, M) is a
+	// call of an exported management function on the receiver
+	fmt.Println("/-- per function of rbac_api.go / rbac_api_with_domains.go: the calls it makes, in source order (same vocabulary as apiCalls) -/")
+	fmt.Println("def rbacCalls : List (String × List (String × String)) := [")
+	emitSks(collect(map[string]bool{"rbac_api.go": true, "rbac_api_with_domains.go": true}))
 	// ---- writers of the role graph (C04): for the methods of Enforcer and DistributedEnforcer (all
 	// non-test files of the package), the calls that change what a memoised g() would answer — a
 	// mutating method of a role manager called on any value, an assignment into rmMap / condRmMap —
